@@ -14,7 +14,7 @@ pub fn prop() -> Prop {
     Prop {
         id: "C15",
         level: "exploration",
-        rule: "through the public constructors and accessors, in BOTH build profiles (release-like and debug-assertion/overflow-check): every integer of the boundary lattice (round trip, tag, immediacy); both booleans and null; all 81 (entry offset, local count) pairs from two 9-value boundary sets; 112 float bit patterns (sign x 7 exponents x 4 mantissas, compared by bits); all strings of <= 3 characters over {a, é, 😀, NUL}; all arrays of depth <= 2 and width <= 2 over four element values; alignment of every heap box; and the complete 200 x 200 cross product of a fixed 200-value set: == holds iff same type and same content (NaN excepted) and never panics for scalars, text and functions. A case = one value or one pair; all are non-trivial; distinct = distinct case descriptions",
+        rule: "through the public constructors and accessors, in BOTH build profiles (release-like and debug-assertion/overflow-check): every integer of the boundary lattice (round trip, tag, immediacy); both booleans and null; all 81 (entry offset, local count) pairs from two 9-value boundary sets; 112 float bit patterns (sign x 7 exponents x 4 mantissas, compared by bits); all strings of <= 3 characters over {a, é, 😀, NUL}; strings and integer arrays of every length around each power of two up to 65 537; all arrays of depth <= 2 and width <= 2 over four element values; alignment of every heap box; and the complete 200 x 200 cross product of a fixed 200-value set: == holds iff same type and same content (NaN excepted) and never panics for scalars, text and functions. A case = one value or one pair; all are non-trivial; distinct = distinct case descriptions",
         assumptions: &["heap values are created through a GC obtained from the facade re-export (verif::GC)", "array == array is outside the property (scalars, text and functions only)"],
         run,
         replay,
@@ -150,6 +150,32 @@ fn run(sh: &mut Shard) {
             (o.as_str().to_string(), o.tag(), o.is_heap_allocated(), verif::addr(o) & 7)
         });
         check(sh, format!("string {s:?}"), matches!(&r, Ok((t, Type::String, true, 0)) if *t == s), || format!("{r:?}"));
+    }
+    // length ladders: strings and arrays of every length around each power of two (one wide character at a
+    // position that walks with the length), content and length read back exactly
+    let mut lens: Vec<usize> = vec![0, 1, 5, 6, 10, 100, 1000];
+    for k in 1..=16 {
+        let n = 1usize << k;
+        lens.extend([n - 1, n, n + 1]);
+    }
+    lens.sort();
+    lens.dedup();
+    for len in lens {
+        for wide in [None, Some('é'), Some('😀')] {
+            let text: String = (0..len).map(|i| if wide.is_some() && i == len / 3 { wide.unwrap() } else { (b'a' + (i % 26) as u8) as char }).collect();
+            let r = guarded(|| {
+                let o = Object::string(text.as_str(), &mut gc);
+                (o.as_str() == text, o.as_str().len(), o.tag(), o.is_heap_allocated(), verif::addr(o) & 7)
+            });
+            check(sh, format!("string of {len} characters, wide {wide:?}"), matches!(&r, Ok((true, n, Type::String, true, 0)) if *n == text.len()), || format!("{r:?}"));
+        }
+        let r = guarded(|| {
+            let elems: Vec<Object> = (0..len).map(|i| Object::int(i as isize - 3)).collect();
+            let o = Object::array(elems, &mut gc);
+            let v = o.as_vec();
+            (v.len(), v.iter().enumerate().all(|(i, x)| x.tag() == Type::Int && x.as_int() == i as isize - 3), o.tag(), o.is_heap_allocated(), verif::addr(o) & 7)
+        });
+        check(sh, format!("array of {len} integers"), matches!(&r, Ok((n, true, Type::Array, true, 0)) if *n == len), || format!("{r:?}"));
     }
     // arrays of depth <= 2, width <= 2 over four element values
     let elems: Vec<Spec> = vec![Spec::Null, Spec::Int(-7), Spec::Str("é".into()), Spec::Float(1.5f64.to_bits())];
